@@ -8,6 +8,7 @@ R-C12-4  coefficients are reduced mod p and term lists are concatenated (shared 
 R-C12-5  sub-circuit glue pairing: copies carry the caller's value, pairs are (outer, inner), glue is reached
          on every normal path, both blocks use the same randomness, context restored
 R-C12-6  differing equation sets of one function name are reported (digest mismatch raises)
+R-C12-8  names derived from the per-context counters are unique (every use consumes the counter)
 R-C12-7  block members are unit wires: the re-allocation bypass constrains length *and* coefficient
 """
 import ast
@@ -411,6 +412,47 @@ def rule_glue(repo, rule):
         rule.undecided(vg.loc(), vg.fq, "%d vc_declare_block calls" % len(decl), "vc_glue not in the two-block shape")
 
 
+def rule_unique_names(repo, rule):
+    """Wire and block names are built from per-context counters: every name taken from a counter must consume it
+    (an increment of the same counter in the same statement list), otherwise two wires / blocks of one context share
+    a name and the files become ambiguous."""
+    import re
+    m = repo.module(QB)
+    EXC = {"enterfn": "the call name uses the caller's counter, which continuefn() advances when control returns to the caller"}
+    for fi in m.functions.values():
+        if isinstance(fi.node, ast.Lambda):
+            continue
+        lists = [fi.node.body] + [getattr(n, f) for n in ast.walk(fi.node) for f in ("body", "orelse") if isinstance(n, (ast.If, ast.For, ast.While, ast.With))
+                                  and isinstance(getattr(n, f, None), list)]
+        for stmts in lists:
+            uses = {}
+            incs = {}
+            for s_ in stmts:
+                if isinstance(s_, (ast.If, ast.For, ast.While, ast.With, ast.FunctionDef, ast.Try)):
+                    continue
+                if isinstance(s_, ast.AugAssign) and isinstance(s_.op, ast.Add) and re.match(r"^vc_(io)?ctr\[", norm(s_.target)):
+                    incs[norm(s_.target)] = incs.get(norm(s_.target), 0) + 1
+                    continue
+                for c in ast.walk(s_):
+                    if isinstance(c, ast.Call) and norm(c.func) == "str" and c.args and re.match(r"^vc_(io)?ctr\[", norm(c.args[0])):
+                        uses.setdefault(norm(c.args[0]), []).append(s_)
+            for k, ss in uses.items():
+                where = fi.loc(ss[0])
+                term = "%s: %d name(s) taken from %s, %d increment(s)" % (fi.qual, len(ss), k, incs.get(k, 0))
+                if incs.get(k, 0) >= len(ss):
+                    rule.ok(where, fi.fq, term)
+                elif fi.qual in EXC:
+                    cf = m.functions.get("continuefn")
+                    ok = cf is not None and any(isinstance(x, ast.AugAssign) and norm(x.target).startswith("vc_ctr[") for x in ast.walk(cf.node))
+                    if ok:
+                        rule.ok(where, fi.fq, term, EXC[fi.qual])
+                    else:
+                        rule.violation(where, fi.fq, term, "call names are taken from a counter nobody advances", "names/%s" % fi.qual)
+                else:
+                    rule.violation(where, fi.fq, term, "a name is derived from %s without consuming the counter: the next wire / block of "
+                                   "the same context gets the same name" % k, "names/%s/%s" % (fi.qual, k))
+
+
 def rule_digest(repo, rule):
     qs = repo.fn(QS, "qapsplit")
     raises = [n for n in ast.walk(qs.node) if isinstance(n, ast.Raise)]
@@ -429,16 +471,25 @@ def rule_digest(repo, rule):
     gq = repo.fn(QS, "getqap")
     rets = [n for n in ast.walk(gq.node) if isinstance(n, ast.Return)]
     t = norm(rets[0].value) if rets else ""
-    if "blocks[" in t and "eqs[" in t and t.startswith("sorted("):
-        rule.ok(gq.loc(), gq.fq, t[:100], "digest input covers blocks and equations, order-normalised")
+    if "blocks[" in t and "eqs[" in t:
+        rule.ok(gq.loc(), gq.fq, t[:100], "digest input covers the block declarations and the equations of the context")
     else:
         rule.violation(gq.loc(), gq.fq, t[:100], "digest input does not cover both the block declarations and the equations",
                        "digest/cover")
     qh = repo.fn(QS, "qaphash")
-    upd = [c for c in ast.walk(qh.node) if isinstance(c, ast.Call) and norm(c.func).endswith(".update")]
-    loops = [n for n in ast.walk(qh.node) if isinstance(n, ast.For)]
-    if upd and loops and norm(loops[0].iter) == qh.params[0]:
-        rule.ok(qh.loc(), qh.fq, "every line of the normalised function body is hashed")
+    q_ = qh.params[0]
+    folds = [n for n in ast.walk(qh.node) if isinstance(n, ast.AugAssign) and isinstance(n.op, (ast.BitXor, ast.Add, ast.BitOr, ast.BitAnd))
+             and any(isinstance(p_, ast.For) for p_ in parents(n))]
+    upd = [c for c in ast.walk(qh.node) if isinstance(c, ast.Call) and norm(c.func).endswith(".update")
+           and any(isinstance(p_, ast.For) and norm(p_.iter) in (q_, "sorted(%s)" % q_) for p_ in parents(c))]
+    whole = [c for c in ast.walk(qh.node) if isinstance(c, ast.Call) and ("md5" in norm(c.func) or "sha" in norm(c.func) or norm(c.func).endswith(".update"))
+             and c.args and "join(" in norm(c.args[0]) and q_ in norm(c.args[0])]
+    if folds:
+        rule.violation(qh.loc(folds[0]), qh.fq, norm(folds[0]), "per-line digests are folded with a commutative, self-cancelling operator: "
+                       "function bodies that differ by lines occurring an even number of times get the same signature", "digest/fold")
+    elif upd or whole:
+        rule.ok(qh.loc(), qh.fq, norm((upd or whole)[0])[:80], "one running hash over every line: different line multisets give different digests "
+                "(up to hash collisions)")
     else:
         rule.violation(qh.loc(), qh.fq, norm(qh.node.body)[:100], "digest does not cover every line", "digest/lines")
 
@@ -506,6 +557,8 @@ def check(repo, rep, tier):
             r4.instances.append(i)
     r5 = rep.rule("R-C12-5", "sub-circuit glue pairing", floor=10)
     rule_glue(repo, r5)
+    r8 = rep.rule("R-C12-8", "wire / block names taken from a counter consume it (names are unique per context)", floor=5)
+    rule_unique_names(repo, r8)
     r6 = rep.rule("R-C12-6", "inconsistent function bodies are reported", floor=3)
     rule_digest(repo, r6)
     r7 = rep.rule("R-C12-7", "block members are unit wires", floor=2)
